@@ -455,9 +455,18 @@ def render_odd(rng, world, knobs):
                 r["alts"] = r["alts"][:1]
         nogt = "nogt" in knobs.get("extras", ()) and rng.random() < 0.2
         if nogt:
-            r["format"] = rng.choice([["DP"], ["DP"], ["GQ", "DP"]])
+            # records without GT; some of them nevertheless carry phase tags (legal: any FORMAT key may appear)
+            r["format"] = rng.choice([["DP"], ["DP"], ["GQ", "DP"], ["DP", "PS"], ["PS", "DP", "PQ"], ["DP", "HP"], ["PQ"]])
             for s in samples:
-                r["calls"][s] = [str(rng.randrange(1, 50)) for _ in r["format"]]
+                vals = []
+                for k in r["format"]:
+                    if k == "HP":
+                        vals.append(rng.choice(["7-1,7-2", ".", "12-2,12-1"]))
+                    elif k == "PQ":
+                        vals.append(rng.choice(["10", "45.5", "."]))
+                    else:
+                        vals.append(str(rng.randrange(1, 50)))
+                r["calls"][s] = vals
             continue
         fmt = ["GT"]
         add = []
